@@ -245,6 +245,62 @@ example : edFromBytes scalar0 = (some ⟨false, scalar0⟩, List.replicate 32 0)
 example : (edFromBytes (List.replicate 31 0)).1 = none := by decide
 example : (edFromBytes (List.replicate 33 0)).1 = none := by decide
 
+/-! ### non-vacuity: the theorems applied to the edge scalars (every hypothesis is one of the
+computations above) -/
+
+example : (secpFromBytes scalarNm1).1.isSome = true :=
+  (secp_import_iff scalarNm1 (by decide)).2 ⟨by decide, by decide⟩
+
+example : ¬ (secpFromBytes scalarN).1.isSome = true := fun h =>
+  absurd ((secp_import_iff scalarN (by decide)).1 h).2 (by decide)
+
+example : (24 ≤ scalarNm1.length ∧ scalarNm1.length ≤ 32) ∧ 0 < beToNat scalarNm1 ∧
+    beToNat scalarNm1 < Secp.n ∧
+    (⟨true, scalarNm1⟩ : CombinedKey) = ⟨true, natToBeFixed 32 (beToNat scalarNm1)⟩ ∧
+    (List.replicate 32 0 : Bytes) = List.replicate scalarNm1.length 0 :=
+  secp_import_inv scalarNm1 ⟨true, scalarNm1⟩ (List.replicate 32 0) (by decide)
+
+example : (⟨true, scalarNm1⟩ : CombinedKey).encode = scalarNm1 ∧
+    (⟨true, scalarNm1⟩ : CombinedKey).isSecp = true :=
+  secp_export_import scalarNm1 _ (List.replicate 32 0) (by decide) (by decide)
+
+/-- the 24-byte input: what is exported is the input left-padded to 32 bytes -/
+example : (⟨true, scalar1⟩ : CombinedKey).encode =
+    List.replicate (32 - (List.replicate 23 0 ++ [1] : Bytes).length) 0 ++ (List.replicate 23 0 ++ [1]) ∧
+    (⟨true, scalar1⟩ : CombinedKey).isSecp = true :=
+  secp_export_import_padded (List.replicate 23 0 ++ [1]) _ _ secp_short_accepted
+
+example : (List.replicate 24 0 : Bytes) = List.replicate (List.replicate 23 0 ++ [1] : Bytes).length 0 :=
+  secp_buffer_zeroed (List.replicate 23 0 ++ [1]) _ _ secp_short_accepted
+
+example : scalarN = scalarN := secp_buffer_kept_on_error scalarN scalarN (by decide)
+
+example : 0 < beToNat (⟨true, scalar1⟩ : CombinedKey).secret ∧
+    beToNat (⟨true, scalar1⟩ : CombinedKey).secret < Secp.n :=
+  secp_import_scalar_in_range scalar1 _ (List.replicate 32 0) (by decide)
+
+/-- the public key of the imported `1` is the independent derivation (the generator, compressed);
+    stated, not evaluated -/
+example : (⟨true, scalar1⟩ : CombinedKey).publicBytes = (Secp.secretToPub scalar1).map Secp.compress :=
+  secp_public_is_derivation scalar1 _ (List.replicate 32 0) (by decide) (by decide)
+
+example : (edFromBytes scalar0).1.isSome = true := (ed_import_iff scalar0).2 (by decide)
+
+example : ¬ (edFromBytes (List.replicate 31 0)).1.isSome = true := fun h =>
+  absurd ((ed_import_iff _).1 h) (by decide)
+
+example : (⟨false, scalar0⟩ : CombinedKey).encode = scalar0 ∧ (⟨false, scalar0⟩ : CombinedKey).isSecp = false :=
+  ed_export_import scalar0 _ (List.replicate 32 0) (by decide)
+
+example : (List.replicate 32 0 : Bytes) = List.replicate scalar0.length 0 :=
+  ed_buffer_zeroed scalar0 ⟨false, scalar0⟩ (List.replicate 32 0) (by decide)
+
+example : List.replicate 31 (0 : UInt8) = List.replicate 31 0 :=
+  ed_buffer_kept_on_error (List.replicate 31 0) (List.replicate 31 0) (by decide)
+
+example : (⟨false, scalar0⟩ : CombinedKey).publicBytes.isSome = true :=
+  ed_public_isSome scalar0 _ (List.replicate 32 0) (by decide)
+
 end EnrVerif
 
 section Axioms
